@@ -48,6 +48,8 @@ def seeded_table():
         sn = "not re-run" if not suite else (", ".join(suite["new_failures"]) or "none")
         ran = m.get("checks_run", {})
         caught = m.get("caught_by", [])
+        if m.get("superseded"):
+            first = "(superseded: no longer applies to the repaired tree) " + first
         hist = m.get("history", [])
         if hist and not hist[0]["caught_by"] and caught:
             first = "(missed at first, see 9.1) " + first
